@@ -17,15 +17,29 @@ io, _ = verif.run_sharded(impl, scripts, 240, "impl")
 mo, _ = verif.run_sharded(model, scripts, 240, "model")
 dis = 0
 fails = 0
+project = getattr(mod, "project", verif.default_project)
+project_all = getattr(mod, "project_all", None)
 for s, a, b in zip(scripts, io, mo):
-    if a is None or b is None or [verif.collapse_err(x) for x in a] != [verif.collapse_err(x) for x in b]:
+    differs = None
+    if a is None or b is None:
+        differs = ("<missing>", "", "")
+    else:
+        a2, b2 = verif.truncate_at_panic(a), verif.truncate_at_panic(b)
+        if project_all is not None:
+            a2, b2 = project_all(s, a2), project_all(s, b2)
+        for i in range(max(len(a2), len(b2))):
+            la = project(s, i, a2[i]) if i < len(a2) else "<missing>"
+            lb = project(s, i, b2[i]) if i < len(b2) else "<missing>"
+            if la is None or lb is None:
+                continue
+            if la != lb:
+                differs = (s["ops"][i] if i < len(s["ops"]) else "?", la, lb)
+                break
+    if differs:
         dis += 1
         if dis <= 3:
-            print("DISAGREE", s["ops"][:3])
-            for op, x, y in zip(s["ops"], a or [], b or []):
-                if x != y:
-                    print("   ", op[:60], "| impl:", x[:60], "| model:", y[:60])
-                    break
+            print("DISAGREE", s["ops"][:2])
+            print("   ", differs[0][:60], "| impl:", differs[1][:60], "| model:", differs[2][:60])
     f = [x for x in mod.oracle(s, a or []) if not isinstance(x, tuple)]
     if f:
         fails += 1
